@@ -2594,6 +2594,24 @@ theorem weight_token_roundtrip (m : Msa) (i : Nat) (hn : nameOk (m.names.getD i 
       memtok p2 blankTab = some (bWT, wtTok m i) ∧ memtok (wtTok m i) blankTab = some (wtTok m i, []) ∧
       memIsReal (wtTok m i) = true := wt_line_weight_token m i hn hf
 
+/-- **token round trip for cut-offs**: the value text `<tok1> <tok2>` of a two-threshold `#=GF GA|NC|TC` line comes apart under
+    `esl_memtok` into exactly the two tokens `printf("%.1f")` produced; `esl_mem_IsReal` accepts both -/
+theorem cutoff_token_roundtrip (a b : UInt32) (ha : finiteF32 a) (hb : finiteF32 b) :
+    memtok (fmtF1 a ++ [32] ++ fmtF1 b) blankTab = some (fmtF1 a, fmtF1 b) ∧ memtok (fmtF1 b) blankTab = some (fmtF1 b, []) ∧
+      memIsReal (fmtF1 a) = true ∧ memIsReal (fmtF1 b) = true := cutoff_value_tokens a b ha hb
+
+/-- **which weights Stockholm / Pfam carry**: the hypothesis `wgtTokOk` of `stockholm_roundtrip_full` holds for EVERY finite weight
+    except those that print as `-1.00` (a weight in about [-1.005, -0.995]: `strtod` reads the token as -1.0, the reader's marker for
+    "no weight given" - inherent to the format's convention, not an artefact of the proof) -/
+theorem weight_token_carried_iff (b : UInt64) (h : finiteF64 b) :
+    wgtTokOk (fmtF2 b) ↔ ¬ (f64Neg b = true ∧ fixedQ (f64Mant b) (f64Exp b) 2 = 100) := wgtTokOk_iff b h
+
+/-- -1.0 is the excluded weight; -1.01 is carried -/
+example : ¬ wgtTokOk (fmtF2 0xbff0000000000000) := by
+  rw [weight_token_carried_iff _ (by unfold finiteF64; decide)]; decide +kernel
+example : wgtTokOk (fmtF2 0xbff028f5c28f5c29) := by
+  rw [weight_token_carried_iff _ (by unfold finiteF64; decide)]; decide +kernel
+
 /-- non-vacuity: 0.125 is finite, prints as `0.12` (tie to even) = 12 hundredths; -2.5 prints as `-2.50`; the smallest subnormal as `0.00` -/
 example : finiteF64 0x3fc0000000000000 ∧ fmtF2 0x3fc0000000000000 = str "0.12" ∧ decTokUnits (fmtF2 0x3fc0000000000000) = 12 := by
   unfold finiteF64; decide +kernel
